@@ -69,9 +69,10 @@ ASSUMPTIONS = ["\\s of a str pattern = str.isspace() = the whitespace of str.str
                "slot, so what a multi-token comma value renders as depends on which was called first; the model "
                "records it per element: parsed elements comment-free, elements made by the value factory with "
                "their comment lines)",
-               "theorems 3/4 (edit read-back) are proved for whitespace-separated lists and the direct operations "
-               "append / remove / replace with good new values; comma lists and value references are covered by "
-               "the correspondence and by holds only",
+               "the edit read-back theorems (3, 5 whitespace lists; 6, 7 comma lists) cover append / remove / replace "
+               "and the value-reference operations with good new values (ListSpec.good_value) on value texts that "
+               "do not end inside a comment (ListSpec.closed_value); append_separator / append_newline / "
+               "append_comment and other new values are covered by the correspondence and by holds only",
                "field names are ASCII names accepted by _RE_FIELD_LINE (taken from the implementation's parse)",
                "asserts are enabled (python without -O): an empty value read through a list view raises AssertionError"]
 
